@@ -4,11 +4,17 @@ import (
 	"fmt"
 	"os"
 
+	"owverif.local/verif/checks/c10"
+	"owverif.local/verif/checks/c15"
+	"owverif.local/verif/checks/c16"
 	"owverif.local/verif/checks/c19"
 	"owverif.local/verif/vf"
 )
 
 var registry = map[string]func() *vf.Check{
+	"C10": c10.Spec,
+	"C15": c15.Spec,
+	"C16": c16.Spec,
 	"C19": c19.Spec,
 }
 
